@@ -180,3 +180,72 @@ func HarnessC15RawPanicFree() {
 	vassert("C15.raw.err", err == nil)
 	vreach("C15.raw.end")
 }
+
+// HarnessC15Through: the table and descriptor code hands the 40-bit time field and the BCD duration fields to the
+// conversion kernels unchanged, for every bit pattern: EIT start_time/duration (0), TOT UTC_time (1), local time offset
+// descriptor on input (2) and on output (3) equal what parseDVBTime / parseDVBDuration* / writeDVBTime /
+// writeDVBDurationMinutes give for the same bytes or values (whose exactness the other C15 harnesses establish)
+func c15SameTime(id string, a, b time.Time) {
+	// date first; the difference is only taken between times of the same date (time stub)
+	same := a.Year() == b.Year() && a.Month() == b.Month() && a.Day() == b.Day()
+	vassert(id, same)
+	if same {
+		vassert(id, a.Sub(b) == 0)
+	}
+}
+
+func HarnessC15Through(which int) {
+	tb := vnondetBytes(5)
+	db := vnondetBytes(3)
+	switch which {
+	case 0:
+		sec := []byte{0x00, 0x01, 0x00, 0x02, 0x00, 0x4e, vnondetU8(), vnondetU8()}
+		sec = append(append(sec, tb...), db...)
+		sec = append(sec, vnondetU8()&0xf0, 0x00)
+		d, err := parseEITSection(astikit.NewBytesIterator(sec), len(sec), 1)
+		vassert("C15.through.eit.err", err == nil && len(d.Events) == 1)
+		want, _ := parseDVBTime(astikit.NewBytesIterator(tb))
+		wd, _ := parseDVBDurationSeconds(astikit.NewBytesIterator(db))
+		c15SameTime("C15.through.eit.time", d.Events[0].StartTime, want)
+		vassert("C15.through.eit.dur", d.Events[0].Duration == wd)
+	case 1:
+		sec := append(append([]byte{}, tb...), 0xf0, 0x00)
+		d, err := parseTOTSection(astikit.NewBytesIterator(sec))
+		vassert("C15.through.tot.err", err == nil)
+		want, _ := parseDVBTime(astikit.NewBytesIterator(tb))
+		c15SameTime("C15.through.tot.time", d.UTCTime, want)
+	case 2:
+		buf := []byte{0xf0, 15, DescriptorTagLocalTimeOffset, 13, 'F', 'R', 'A', vnondetU8(), db[0], db[1]}
+		buf = append(buf, tb...)
+		nb := vnondetBytes(2)
+		buf = append(buf, nb...)
+		ds, err := parseDescriptors(astikit.NewBytesIterator(buf))
+		vassert("C15.through.lto.err", err == nil && len(ds) == 1 && ds[0].LocalTimeOffset != nil && len(ds[0].LocalTimeOffset.Items) == 1)
+		it := ds[0].LocalTimeOffset.Items[0]
+		want, _ := parseDVBTime(astikit.NewBytesIterator(tb))
+		w1, _ := parseDVBDurationMinutes(astikit.NewBytesIterator(db[:2]))
+		w2, _ := parseDVBDurationMinutes(astikit.NewBytesIterator(nb))
+		c15SameTime("C15.through.lto.time", it.TimeOfChange, want)
+		vassert("C15.through.lto.offsets", it.LocalTimeOffset == w1 && it.NextTimeOffset == w2)
+	case 3:
+		y, m, d := vnondetU16(), vnondetU16(), vnondetU16()
+		vassume(y >= 1900 && y <= 2038 && m >= 1 && m <= 12 && d >= 1 && d <= refDaysInMonth(y, m))
+		hh, mm, ss := vnondetU8(), vnondetU8(), vnondetU8()
+		vassume(hh < 24 && mm < 60 && ss < 60)
+		t := time.Date(int(y), time.Month(m), int(d), int(hh), int(mm), int(ss), 0, time.UTC)
+		o1 := time.Duration(int64(vnondetU16())) * time.Minute
+		o2 := time.Duration(int64(vnondetU16())) * time.Minute
+		item := &DescriptorLocalTimeOffsetItem{CountryCode: []byte("FRA"), CountryRegionID: vBits8(6), LocalTimeOffsetPolarity: vrange(0, 1) == 1, LocalTimeOffset: o1, TimeOfChange: t, NextTimeOffset: o2}
+		sink := newVSink()
+		w := astikit.NewBitsWriter(astikit.BitsWriterOptions{Writer: sink})
+		err := writeDescriptorLocalTimeOffset(w, &DescriptorLocalTimeOffset{Items: []*DescriptorLocalTimeOffsetItem{item}})
+		vassert("C15.through.ltow.err", err == nil && len(sink.buf) == 13)
+		ref := newVSink()
+		rw := astikit.NewBitsWriter(astikit.BitsWriterOptions{Writer: ref})
+		writeDVBDurationMinutes(rw, o1)
+		writeDVBTime(rw, t)
+		writeDVBDurationMinutes(rw, o2)
+		vassert("C15.through.ltow.bytes", len(ref.buf) == 9 && vBytesEq(sink.buf[4:], ref.buf))
+	}
+	vreach("C15.through.end")
+}
